@@ -6,6 +6,47 @@ FAKES = "system.Conn / system.State / DialFunc / address, route and clock source
 STAGED = ("harness runs as in-package tests in a throw-away copy of /repo's working tree; the "
           "repository's own _test.go files are not part of that build")
 
+DIAL_PATCHES = [
+    {"name": "dial-lookupInterface", "file": "internal/system/dialer.go", "pattern": r"\blookupInterface\(d\.iface\)", "repl": "vkLookupInterface(d.iface)", "count": 1},
+    {"name": "dial-checkInterface", "file": "internal/system/dialer.go", "pattern": r"\bcheckInterface\(ifi, ifi\.Addrs\)", "repl": "vkCheckInterface(ifi, ifi.Addrs)", "count": 1},
+    {"name": "dial-dialNDP", "file": "internal/system/dialer.go", "pattern": r"\bdialNDP\(ifi\)", "repl": "vkDialNDP(ifi)", "count": 1},
+]
+E2E_PATCHES = DIAL_PATCHES + [
+    {"name": "os-NewState", "file": "internal/system/state.go", "pattern": r"func NewState\(\) State \{ return systemState\{\} \}", "repl": "func NewState() State { return vkNewState() }", "count": 1},
+    {"name": "os-rtnetlink", "file": "internal/system/addresser_linux.go", "pattern": r"return &addresser\{execute: rtnlExecute\}", "repl": "return &addresser{execute: vkExecute}", "count": 1},
+]
+
+
+def e2e_part(run):
+    """The whole-process part: cmd/corerad's unmodified main() as a child process on a fake OS (harness/e2e)."""
+    return {"pkg": "cmd/corerad", "pkgname": "main", "run": run,
+            "files": ["shared/zz_verif_doc_test.go", "e2e/zz_verif_main_test.go"],
+            "extra_files": [{"src": "e2e/zz_verif_fakeos.go", "dst": "internal/system/zz_verif_fakeos.go"}],
+            "patches": E2E_PATCHES, "shards": {"quick": 12, "thorough": 16}}
+
+
+WHOLE = ("whole-process part: the unmodified main() of cmd/corerad runs as a child process (the staged test binary re-executed) with real "
+         "flag parsing, configuration file, epoch = process start, signal.Notify, NOTIFY_SOCKET, HTTP listener, link watcher, BuildTasks, "
+         "Serve, Dialer and dial(); only dial()'s three OS-facing callees, system.NewState and the rtnetlink execute hook are renamed "
+         "(staged copy) to a fake OS that reads a generated world file and logs every open/close/write/sysctl access. Real time: lifetimes "
+         "that count down are compared with the interval implied by [spawn, ready] x [request, response]; a case over its 30 s budget is "
+         "retried, then skipped and counted; a violation is reported only if it reproduces on a second run of the case")
+E2E_RULE = {
+    "C08": (" Whole-process part (36 / 1600 generated configurations x system states x signal {TERM, INT, HUP} x solicitations x wait 0..1.2 s): per "
+            "advertising, forwarding interface with a non-zero lifetime the fake OS log must show exactly one zero-lifetime RA, to ff02::1, as the last "
+            "write before the close on SIGTERM/SIGINT and none on SIGHUP."),
+    "C16": (" Whole-process part (24 / 600 cases): a deprecated prefix (1 s..1 h) and route on every interface, probes of the debug API right after "
+            "start and 1.1 / 2.1 s later plus every RA on the fake wire: each counted-down lifetime must lie in the interval implied by the process's "
+            "start (epoch = time.Now() in main), also after a restart of the same configuration."),
+    "C17": (" Whole-process part (36 / 1600 cases): GET /_/api/interfaces twice, GET /metrics (text exposition parsed: the four interface gauges, "
+            "misconfiguration, one sample per prefix/route/RDNSS/DNSSL option, no others; 404 when disabled), every RA on the fake wire (initial, "
+            "solicited - exactly one per valid RS, none for hop limit 64 -, final) against the expected RA; autoconf disabled then restored, untouched on "
+            "non-advertising interfaces."),
+    "C20": (" Whole-process part (36 / 1600 cases, one in four with an interface that does not exist): exit status 0 and no death by signal for "
+            "SIGTERM/SIGINT/SIGHUP, exactly one connection per existing advertising/monitoring interface and none for others, each closed exactly "
+            "once and nothing written after, READY=1 exactly once when every task came up and never while an interface task cannot initialise."),
+}
+
 PROPS = {
     "C13": {
         "parts": [
@@ -66,9 +107,11 @@ PROPS = {
         "level_note": "Trusts verifref.ExpandRoutes and net/netip; route source injected through Route.Routes.",
     },
     "C16": {
-        "pkg": "internal/plugin",
-        "files": ["plugin/zz_verif_common_test.go", "plugin/zz_verif_C13_test.go", "plugin/zz_verif_C16_test.go"],
-        "run": "TestVerif_C16",
+        "parts": [
+            {"pkg": "internal/plugin", "run": "TestVerif_C16",
+             "files": ["plugin/zz_verif_common_test.go", "plugin/zz_verif_C13_test.go", "plugin/zz_verif_C16_test.go"]},
+            e2e_part("TestVerif_C16main"),
+        ],
         "level": "exploration",
         "quick": {"shards": 4},
         "thorough": {"shards": 16},
@@ -243,9 +286,11 @@ PROPS = {
         "level_note": "Trusts testing/synctest, the in-memory Conn and the greedy matching (optimal for equal-length windows).",
     },
     "C08": {
-        "pkg": "internal/corerad",
-        "files": ["corerad/zz_verif_C12_test.go", "corerad/zz_verif_sim_test.go", "corerad/zz_verif_adv_test.go", "corerad/zz_verif_C06_test.go", "corerad/zz_verif_C08_test.go"],
-        "run": "TestVerif_C08",
+        "parts": [
+            {"pkg": "internal/corerad", "run": "TestVerif_C08",
+             "files": ["corerad/zz_verif_C12_test.go", "corerad/zz_verif_sim_test.go", "corerad/zz_verif_adv_test.go", "corerad/zz_verif_C06_test.go", "corerad/zz_verif_C08_test.go"]},
+            e2e_part("TestVerif_C08main"),
+        ],
         "level": "exploration",
         "bubble": True,
         "quick": {"shards": 8},
@@ -375,9 +420,11 @@ PROPS = {
         "level_note": "Trusts testing/synctest, the in-memory State and the expected-RA builder advCfg.expect.",
     },
     "C17": {
-        "pkg": "internal/corerad",
-        "files": ["shared/zz_verif_doc_test.go", "corerad/zz_verif_C12_test.go", "corerad/zz_verif_sim_test.go", "corerad/zz_verif_adv_test.go", "corerad/zz_verif_mon_test.go", "corerad/zz_verif_C06_test.go", "corerad/zz_verif_C04_test.go", "corerad/zz_verif_C17_test.go"],
-        "run": "TestVerif_C17",
+        "parts": [
+            {"pkg": "internal/corerad", "run": "TestVerif_C17",
+             "files": ["shared/zz_verif_doc_test.go", "corerad/zz_verif_C12_test.go", "corerad/zz_verif_sim_test.go", "corerad/zz_verif_adv_test.go", "corerad/zz_verif_mon_test.go", "corerad/zz_verif_C06_test.go", "corerad/zz_verif_C04_test.go", "corerad/zz_verif_C17_test.go"]},
+            e2e_part("TestVerif_C17main"),
+        ],
         "level": "exploration",
         "bubble": True,
         "quick": {"shards": 8},
@@ -445,9 +492,11 @@ PROPS = {
         "level_note": "Trusts the FIFO model in c19Prop, testing/synctest's blocked-goroutine detection and the Go race detector.",
     },
     "C20": {
-        "pkg": "internal/corerad",
-        "files": ["corerad/zz_verif_C12_test.go", "corerad/zz_verif_sim_test.go", "corerad/zz_verif_C20_test.go"],
-        "run": "TestVerif_C20",
+        "parts": [
+            {"pkg": "internal/corerad", "run": "TestVerif_C20",
+             "files": ["corerad/zz_verif_C12_test.go", "corerad/zz_verif_sim_test.go", "corerad/zz_verif_C20_test.go"]},
+            e2e_part("TestVerif_C20main"),
+        ],
         "level": "exploration",
         "bubble": True,
         "quick": {"shards": 8},
@@ -472,3 +521,7 @@ PROPS = {
 }
 
 NOT_APPLICABLE = {}
+
+for _id, _txt in E2E_RULE.items():
+    PROPS[_id]["rule"] = PROPS[_id]["rule"] + _txt
+    PROPS[_id]["assumptions"] = list(PROPS[_id].get("assumptions", [])) + [WHOLE]
